@@ -9,6 +9,29 @@ LEVEL = "other"
 M = "Lib/structs/map.c"
 
 
+
+def slot_zeroing(P, ce, moves):
+    """{base: [events]} — whole-slot zeroing written as stores of NULL/0 to *every* field of map_elem through one base pointer, outside
+    any loop and after the back-shift loop (reachable from a move inside it): the field-by-field spelling of memset(base, 0, sizeof)."""
+    if not moves:
+        return {}
+    fields = {f["name"] for f in P.record("map_elem")["fields"]}
+    loopb = ce.in_loop_blocks()
+    by = {}
+    for e in ce.events():
+        if e.kind != "assign" or e.lhs is None or e.rhs is None or e.block.id in loopb:
+            continue
+        l_ = strip(e.lhs)
+        r_ = strip(e.rhs)
+        if l_ is None or l_["k"] != "member" or l_.get("field", l_.get("name")) not in fields or r_ is None:
+            continue
+        if not (r_["k"] == "null" or cval(e.rhs) == 0):
+            continue
+        if not rules.may_precede(ce, moves[0], e):
+            continue
+        by.setdefault(S(l_["base"]) if "base" in l_ else S(l_["e"]), {})[l_.get("field", l_.get("name"))] = e
+    return {b: list(d.values()) for b, d in by.items() if set(d) == fields}
+
 def _is_strdup(e):
     e = strip(e)
     return e is not None and e["k"] == "call" and e.get("callee") == "mem_strdup"
@@ -156,7 +179,9 @@ def run(ck, P):
         follow = [e for e in ev.block.events[ev.idx + 1:] if e.kind == "assign" and S(e.lhs) == dst and S(e.rhs) == src]
         okm = okm and bool(follow)
     ms = [ev for ev in ce.calls("memset") if ev.block.id not in ce.in_loop_blocks()]
-    okm = okm and bool(ms) and all(mc and S(e.args[0]) == S(mc[0].args[0]) and cval(e.args[1]) == 0 for e in ms)
+    zs = slot_zeroing(P, ce, mc)            # the same thing spelt as a compound-literal / field-by-field zeroing after the loop
+    okm = okm and (bool(ms) or bool(zs)) and all(mc and S(e.args[0]) == S(mc[0].args[0]) and cval(e.args[1]) == 0 for e in ms) \
+        and all(mc and b_ == S(mc[0].args[0]) for b_ in zs)
     ck.ob("C05.2-MOVES", ce.site("back-shift"), okm, "back-shift moves entries and zeroes the last vacated slot: %s" % okm)
     rh = P.fn("hashmap_rehash", M)
     ck.analysed(rh)
@@ -196,7 +221,8 @@ def run(ck, P):
     for path in ce.paths():
         evs = list(rules.path_events(ce, path))
         dec = [e for e in evs if e.kind == "incdec" and S(e.lhs) == "m->length" and e.e["op"] == "--"]
-        kz = [e for e in evs if e.kind == "assign" and S(e.lhs).endswith("->key") and strip(e.rhs)["k"] == "null"]
+        zero_evs = {id(z) for grp in slot_zeroing(P, ce, [ev for ev in ce.calls("memcpy")]).values() for z in grp}
+        kz = [e for e in evs if e.kind == "assign" and S(e.lhs).endswith("->key") and strip(e.rhs)["k"] == "null" and id(e) not in zero_evs]
         if len(dec) != 1 or len(kz) != 1:
             bad = ("clear_elem does length-- %d time(s), clears the key %d time(s)" % (len(dec), len(kz)), path)
             break
